@@ -7,8 +7,8 @@ from gen import i1_line, i2_line, e_scalar, e_single, e_array, e_ainto, e_into
 from vlib import next_up, next_down
 
 ID = "C05"
-LEAN_MODULES = ["NdInterp.Props.C05", "NdInterp.Props.C02", "NdInterp.Props.RatTie", "NdInterp.Props.FormulaTie.Rng", "NdInterp.Props.FormulaTie.TabExt"]
-THEOREM_FILES = [("NdInterp/Props/C05.lean", "C05_"), ("NdInterp/Props/C02.lean", "C05_"), ("NdInterp/Props/FormulaTie/Rng.lean", "FT_rng_"), ("NdInterp/Props/FormulaTie/TabExt.lean", "FT_tab_")]
+LEAN_MODULES = ["NdInterp.Props.C05", "NdInterp.Props.C02", "NdInterp.Props.RatTie", "NdInterp.Props.FormulaTie.Rng", "NdInterp.Props.FormulaTie.TabExt", "NdInterp.Props.FormulaTie.Ctl"]
+THEOREM_FILES = [("NdInterp/Props/C05.lean", "C05_"), ("NdInterp/Props/C02.lean", "C05_"), ("NdInterp/Props/FormulaTie/Rng.lean", "FT_rng_"), ("NdInterp/Props/FormulaTie/TabExt.lean", "FT_tab_"), ("NdInterp/Props/FormulaTie/Ctl.lean", "FT_ctl_")]
 RULE = ("extrapolate=false for Linear, CubicSpline (NotAKnot, Natural, Clamped, Periodic, Individual/Mixed) and Bilinear; every entry "
         "point (scalar, single, into, array, array_into; static and dynamic query dims, rank 0..3); queries at both range ends, the "
         "floats adjacent on both sides, +-inf, NaN, far outside, in range; batches with the offending element at every position, some with a "
